@@ -36,6 +36,7 @@ const (
 	EvConfV2
 	EvLeaveJoint
 	EvReportUnreachable
+	EvProposeBatch
 	NumEv
 )
 
@@ -45,7 +46,7 @@ var EvNames = [NumEv]string{
 	"propose", "campaign", "transfer_leader", "read_index", "ready_full",
 	"ready_crash_before_persist", "ready_crash_after_persist", "crash",
 	"restart", "restart_applied0", "compact_snapshot", "confchange_v1",
-	"confchange_v2", "leave_joint", "report_unreachable",
+	"confchange_v2", "leave_joint", "report_unreachable", "propose_batch",
 }
 
 // Ev is one trace record. Message events carry a digest of the message.
@@ -470,6 +471,25 @@ func (s *Sim) doPropose(id uint64) {
 		s.stats.ProposalsDropped++
 	}
 	s.afterEvent()
+}
+
+// doProposeBatch hands one proposal message with several entries to a node, as
+// a forwarding follower or an application batching its proposals may (the
+// Node API: Step with a MsgProp). Entries may be membership changes.
+func (s *Sim) doProposeBatch(id uint64, ents []pb.Entry) {
+	s.record(EvProposeBatch, id, nil, 0, uint64(len(ents)))
+	if err := s.nodes[id].rn.Step(pb.Message{Type: pb.MsgProp, From: id, Entries: ents}); err != nil {
+		s.stats.ProposalsDropped++
+	}
+	s.afterEvent()
+}
+
+func confEntry(cc pb.ConfChangeI) (pb.Entry, bool) {
+	typ, data, err := pb.MarshalConfChange(cc)
+	if err != nil {
+		return pb.Entry{}, false
+	}
+	return pb.Entry{Type: typ, Data: data}, true
 }
 
 func (s *Sim) doCampaign(id uint64) {
